@@ -13,7 +13,6 @@ import (
 	"sort"
 	"strconv"
 	"strings"
-	"time"
 
 	"github.com/NethermindEth/juno/consensus/starknet"
 	"github.com/NethermindEth/juno/consensus/types"
@@ -165,8 +164,8 @@ func (c *batchCtx) ask(line string) (string, bool) {
 	}
 	var ans string
 	var err error
-	if !lib.WithDeadline(300*time.Second, func() { ans, err = c.drv.Ask(line) }) {
-		err = fmt.Errorf("no answer within 300 s")
+	if !lib.WithDeadline(driverDeadline, func() { ans, err = c.drv.Ask(line) }) {
+		err = fmt.Errorf("no answer within %v", driverDeadline)
 	}
 	if err == nil && ans == "bad-op" {
 		err = fmt.Errorf("bad-op")
@@ -474,6 +473,8 @@ func (c *batchCtx) decodeCase(what string, wm []byte, logs []logSpec, probeSeq b
 	if !ok {
 		return
 	}
+	wmU, _ := strconv.ParseUint(wmVal, 10, 64)
+	var belowWm []string
 	st, err := openReal(db)
 	impl := classifyOpen(err)
 	var entries []string
@@ -484,6 +485,9 @@ func (c *batchCtx) decodeCase(what string, wm []byte, logs []logSpec, probeSeq b
 					return e
 				}
 				entries = append(entries, fmtReal(en))
+				if wm != nil && en != nil && uint64(en.GetHeight()) <= wmU {
+					belowWm = append(belowWm, fmtReal(en))
+				}
 			}
 			return nil
 		})
@@ -493,6 +497,16 @@ func (c *batchCtx) decodeCase(what string, wm []byte, logs []logSpec, probeSeq b
 	}
 	c.res.Compared(1)
 	c.res.Case("batch-decode/"+what, true)
+	if wm != nil && err == nil {
+		// PROPERTY oracle (round 6): heights at or below the watermark FILE are dead whatever the logs still hold —
+		// also when a log (one that a cleanup spared, or an unlinked one a crash brought back) carries an older,
+		// lower prune record followed by entries between that record and the watermark.
+		c.res.Hit("batch-decode:watermark-file-oracle")
+		if len(belowWm) > 0 {
+			keepBest(lib.Violation{Sig: "revived-pruned-entry", What: fmt.Sprintf("watermark file %s, yet NewTendermintWALStore + LoadAllEntries show entries at or below it (%s): %s", wmVal, what, strings.Join(belowWm, " | ")),
+				Replay: map[string]any{"ops": []Op{}, "codec": "batch", "case": what, "request": clip(req)}})
+		}
+	}
 	mclass := model
 	if strings.HasPrefix(model, "ok ") {
 		mclass = "ok"
